@@ -13,7 +13,9 @@ from ..refmodels import dak
 K1_SIG = "C07:K1-compressibility-follows-published-coefficient-density-follows-A1*A2/Tr"
 P_GAS = [5, 10, 14.7, 15, 50, 100, 300, 600, 1000, 2000, 3000, 5000, 8000, 11000, 14000]
 REL_IDENT = 1e-12   # relations between two library functions
-REL_CONST = 1e-4    # identities that carry a physical constant (M_air, R, 62.37 ...)
+REL_CONST = 1e-4    # identities that carry a physical constant whose published precision varies (M_air, R)
+REL_CORR = 1e-9     # identities whose constants ARE the named correlation (McCain brine polynomial, Standing's
+                    # 62.37 gamma_o + 0.0136 gamma_g R_s): any association of the same polynomial is within a few ulp
 REL_DERIV = 1e-4    # compressibility against a Richardson-extrapolated central difference
 
 
@@ -91,7 +93,8 @@ def eval_gas(case):
         k = int(np.argmin(d))
         viol.append(V("gas/viscosity-increasing", f"mu_g falls from {mus[k]:.6g} at p={ps[k]} to {mus[k + 1]:.6g} "
                       f"at p={ps[k + 1]}", case=case, observed=[mus[k], mus[k + 1]]))
-    return {"violations": viol, "outcome": sorted(out), "evals": len(ps), "key": (round(tr, 6), g)}
+    return {"violations": viol, "outcome": sorted(out), "evals": len(ps), "key": (round(tr, 6), g),
+            "rb_over_g": float(np.mean(rb)) / g if len(rb) else None, "case": case}
 
 
 def eval_oil(case):
@@ -110,10 +113,10 @@ def eval_oil(case):
         rs = oil.solution_gor_Standing(T, p, api, g, gor)
         lhs, rhs = rho * bo, 62.37 * so + 0.0136 * g * rs
         vals.append(lhs - 0.0136 * g * rs)
-        if not abs(lhs / rhs - 1) <= REL_CONST:
+        if not abs(lhs / rhs - 1) <= REL_CORR:
             viol.append(V("oil/rho-Bo-mass-content", f"rho_o*B_o={lhs!r} vs stock-tank oil + dissolved gas "
                           f"{rhs!r} at p={p:.6g} (p_b={pb:.6g})", case=dict(case, p=p), observed=lhs, expected=rhs,
-                          tol=REL_CONST))
+                          tol=REL_CORR))
     vals = np.array(vals)
     spread = (vals.max() - vals.min()) / abs(vals.mean())
     if not spread <= 1e-11:
@@ -130,9 +133,9 @@ def eval_water(case):
     lhs = water.density_water_McCain(T, p, S) * water.b_water_McCain(T, p)
     rhs = 62.368 + 0.438603 * S + 1.60074e-3 * S**2
     viol = []
-    if not abs(lhs / rhs - 1) <= REL_CONST:
+    if not abs(lhs / rhs - 1) <= REL_CORR:
         viol.append(V("water/rho-Bw-brine-density", f"rho_w*B_w={lhs!r} vs brine density at standard conditions "
-                      f"{rhs!r}", case=case, observed=lhs, expected=rhs, tol=REL_CONST))
+                      f"(McCain's polynomial) {rhs!r}", case=case, observed=lhs, expected=rhs, tol=REL_CORR))
     ref = water.density_water_McCain(T, 14.7, S) * water.b_water_McCain(T, 14.7)
     if not abs(lhs / ref - 1) <= REL_IDENT * 10:
         viol.append(V("water/rho-Bw-pressure-independent", f"rho_w*B_w differs between p={p} and 14.7 psia: "
@@ -163,8 +166,17 @@ def eval_history(case):
     return {"violations": viol[:3], "outcome": "history", "evals": len(calls) * 3}
 
 
+def eval_gas_pair(case):
+    a, b = eval_gas(case["a"]), eval_gas(case["b"])
+    ra, rb = a["rb_over_g"], b["rb_over_g"]
+    viol = []
+    if not abs(ra - rb) <= 1e-11 * abs(rb):
+        viol.append(V("gas/rho-Bg-state-independent", f"rho_g*B_g/gravity {ra!r} vs {rb!r}", case=case, observed=[ra, rb]))
+    return {"violations": viol, "outcome": "pair", "evals": 2}
+
+
 def evaluate(case):
-    return {"gas": eval_gas, "oil": eval_oil, "water": eval_water, "history": eval_history}[case["phase"]](case)
+    return {"gas": eval_gas, "gas-pair": eval_gas_pair, "oil": eval_oil, "water": eval_water, "history": eval_history}[case["phase"]](case)
 
 
 def cases(tier, seed):
@@ -199,6 +211,16 @@ def cases(tier, seed):
 def run(ctx):
     cs = cases(ctx.tier, ctx.seed)
     res = ctx.pmap(evaluate, cs)
+    # rho_g*B_g is the standard-condition mass content M p_sc/(R T_sc): proportional to gravity and to nothing else,
+    # so rho_g*B_g/gravity must be ONE number over every temperature, pressure, contaminant set and dryness
+    rbs = [(r["rb_over_g"], r["case"]) for r in res if r.get("rb_over_g")]
+    if rbs:
+        lo, hi = min(rbs, key=lambda t: t[0]), max(rbs, key=lambda t: t[0])
+        if not (hi[0] - lo[0]) <= 1e-11 * abs(hi[0]):
+            ctx.add([V("gas/rho-Bg-state-independent", f"rho_g*B_g/gravity is {lo[0]!r} at T={lo[1]['T']} and {hi[0]!r} "
+                       f"at T={hi[1]['T']} ({(hi[0] - lo[0]) / hi[0]:.3g} relative): the standard-condition mass "
+                       "content depends on reservoir state", case={"phase": "gas-pair", "a": lo[1], "b": hi[1]},
+                       observed=[lo[0], hi[0]], tol=1e-11)])
     cov = {
         "evaluations": sum(r.get("evals", 0) for r in res),
         "distinct_nontrivial": len({tuple(r["key"]) if isinstance(r["key"], (list, tuple)) else r["key"]
@@ -209,8 +231,9 @@ def run(ctx):
         "by_phase": {k: sum(1 for c in cs if c["phase"] == k) for k in ("gas", "oil", "water", "history")},
     }
     return ctx.finish("exploration", cov, [
-        "constant-bearing identities (M_air, R, 62.37, brine polynomial) are held to 1e-4, relations between "
-        "two library functions to 1e-12 / 1e-11",
+        "identities carrying physical constants of varying published precision (M_air, R) are held to 1e-4; "
+        "identities whose constants are the named correlation itself (McCain brine polynomial, Standing's "
+        "62.37/0.0136 mass balance) to 1e-9; relations between two library functions to 1e-12 / 1e-11",
         "c_g violation is attributed to K1 only if c_g equals the published-coefficient formula at the "
         "library's density to 1e-9 AND the finite difference equals the analytic derivative of the "
         "K1-substituted EOS to 1e-5",
